@@ -456,7 +456,7 @@ impl<'a> Run<'a> {
 }
 
 pub fn execute(c: &RollerCase) -> Result<CaseReport, Failure> {
-  let tmp = tempfile::Builder::new().prefix("logx-roller-").tempdir().map_err(|e| Failure::new("INFRA", "tempdir", e.to_string()))?;
+  let tmp = crate::gen::scratch_dir("logx-roller-").map_err(|e| Failure::new("INFRA", "tempdir", e.to_string()))?;
   let r = execute_in(c, tmp.path());
   let _ = tmp.close();
   r
